@@ -122,16 +122,16 @@ def oracle(tier, rng, deep=False):
             grid = np.array(sorted([amax_sq * f for f in rng.sample([0.9, 0.6, 0.45, 0.3, 0.15], rng.randint(2, 4))], reverse=True))
             al_out, coefs = SqrtLasso(tol=1e-9, max_iter=200).path(X, y, alphas=grid)[:2]
             coefs = np.asarray(coefs)
-            coefs = coefs if coefs.shape[0] == p else coefs.T
+            coefs = coefs if coefs.shape[0] == len(al_out) else coefs.T      # one ROW per alpha (n_alphas, n_features)
             for t_, a in enumerate(al_out):
                 wref, _, _, sref = sl.run(ss.ProxNewton(tol=1e-10, fit_intercept=False, max_iter=200), Xf, y, cc(SqrtQuadratic()), cc(sp.L1(float(a))))
                 Fa = lambda w: float(np.linalg.norm(y - X @ w) + a * np.sum(np.abs(w)))
                 ev += 1
                 if np.linalg.norm(y - X @ wref) < 2e-2 * np.linalg.norm(y):
                     continue
-                if Fa(coefs[:, t_]) - Fa(wref) > 1e-6 * (1 + abs(Fa(wref))):
+                if Fa(coefs[t_]) - Fa(wref) > 1e-6 * (1 + abs(Fa(wref))):
                     failures.append(dict(site="objective-gap:SqrtLasso.path-vs-direct-solve", input=dict(inp, alphas=list(map(float, al_out)), t=t_),
-                                         observed=dict(F_path=Fa(coefs[:, t_]), F_ref=Fa(wref))))
+                                         observed=dict(F_path=Fa(coefs[t_]), F_ref=Fa(wref))))
                     break
         except Exception as e:
             failures.append(dict(site="raises:pairwise", input=inp, observed=f"{type(e).__name__}: {str(e)[:300]}"))
